@@ -259,6 +259,43 @@ fn run_case<C: Suite>(c: &Case) -> Outcome {
                 }
                 Err(e) => o.fail(format!("{tag}/aggregate-failed"), format!("{ctx}: AllCheaters: {e:?}")),
             }
+            // the same session with public key packages of other provenance must give the same signature:
+            // the pre-3.0 form without a threshold, a package that crossed the wire (binary / JSON), and
+            // cloned parameters
+            {
+                let legacy = fc::keys::PublicKeyPackage::<C>::new(grp.pkp.verifying_shares().clone(), *grp.pkp.verifying_key(), None);
+                let wire_b = grp.pkp.serialize().ok().and_then(|b| fc::keys::PublicKeyPackage::<C>::deserialize(&b).ok());
+                let wire_j = serde_json::to_string(&grp.pkp).ok().and_then(|j| serde_json::from_str::<fc::keys::PublicKeyPackage<C>>(&j).ok());
+                let cloned = rr.params.clone();
+                // the randomizer crosses the wire and the parameters are rebuilt from it
+                let wire_p: Option<RandomizedParams<C>> = Randomizer::<C>::deserialize(&rr.params.randomizer().serialize()).ok().map(|r| RandomizedParams::from_randomizer(&vk, r));
+                let mut variants: Vec<(&str, Result<fc::Signature<C>, fc::Error<C>>)> = vec![
+                    ("legacy public key package (no threshold)", C::w_rr_aggregate(&pkg, &shares, &legacy, &rr.params)),
+                    ("cloned parameters", C::w_rr_aggregate(&pkg, &shares, &grp.pkp, &cloned)),
+                ];
+                if cloned != rr.params {
+                    o.fail(format!("{tag}/params-clone-differs"), ctx.clone());
+                }
+                match wire_b {
+                    Some(p) => variants.push(("public key package after binary transport", C::w_rr_aggregate(&pkg, &shares, &p, &rr.params))),
+                    None => o.fail(format!("{tag}/transport-failed"), format!("{ctx}: public key package (binary)")),
+                }
+                match wire_j {
+                    Some(p) => variants.push(("public key package after JSON transport", C::w_rr_aggregate(&pkg, &shares, &p, &rr.params))),
+                    None => o.fail(format!("{tag}/transport-failed"), format!("{ctx}: public key package (JSON)")),
+                }
+                match wire_p {
+                    Some(p) => variants.push(("parameters rebuilt from the transported randomizer", C::w_rr_aggregate(&pkg, &shares, &grp.pkp, &p))),
+                    None => o.fail(format!("{tag}/transport-failed"), format!("{ctx}: randomizer")),
+                }
+                for (what, r) in variants {
+                    match r {
+                        Ok(s2) if s2 == sig => o.count("provenance_variants_agree", 1),
+                        Ok(_) => o.fail(format!("{tag}/provenance-changes-signature"), format!("{ctx}: {what}")),
+                        Err(e) => o.fail(format!("{tag}/aggregate-failed"), format!("{ctx}: with {what}: {e:?}")),
+                    }
+                }
+            }
             match verify_everywhere::<C>(rr.params.randomized_verifying_key(), &m, &sig) {
                 Ok(()) => o.count("sessions_verified_under_randomized_key", 1),
                 Err(e) => o.fail(format!("{tag}/not-valid-under-randomized-key"), format!("{ctx}: {e}")),
